@@ -497,9 +497,9 @@ def energy_fn(name, which="total"):
     def W(H, state, dt, cvec, aux):
         m = build_model(name, cvec)
         if pf:
-            f = m.compute_strain_energy_density if which == "strain" else m.compute_energy_density
+            f = getattr(m, {"total": "compute_energy_density", "strain": "compute_strain_energy_density"}.get(which, which))
             return f(H, aux[0], aux[1:4], state, dt)
-        return m.compute_energy_density(H, state, dt)
+        return getattr(m, {"total": "compute_energy_density"}.get(which, which))(H, state, dt)
     return W
 
 
@@ -678,3 +678,11 @@ def factory_for(family):
         from optimism.phasefield import PhaseFieldThreshold as M
         return M.create_material_model_functions
     raise KeyError(family)
+
+
+def energy_entry_points(name):
+    """Every energy-valued callable of the object the factory returns (discovered by introspection: callable fields whose name contains
+    'energy'), e.g. compute_energy_density, compute_output_energy_density, compute_strain_energy_density."""
+    m = build_model(name, sample_consts(name, onp.random.default_rng(0)))
+    fields = getattr(m, "_fields", None) or [a for a in dir(m) if not a.startswith("_")]
+    return [f for f in fields if "energy" in f and callable(getattr(m, f, None))]
